@@ -398,8 +398,14 @@ func fopOnNumber(rec []byte, qValDte *DtypeEnclosure,
 
 	// now create a float (highest level for rec, only if we need to based on query
 	if qValDte.Dtype == SS_DT_FLOAT && recDte.Dtype != SS_DT_FLOAT {
-		// todo need to check err
-		recDte.FloatVal, _ = dtu.ConvertToFloat(recDte.UnsignedVal, 64)
+		// the integer views of a fractional literal are truncated, so compare as floats
+		switch recDte.Dtype {
+		case SS_DT_SIGNED_NUM:
+			recDte.FloatVal = float64(recDte.SignedVal)
+		case SS_DT_UNSIGNED_NUM:
+			recDte.FloatVal = float64(recDte.UnsignedVal)
+		}
+		recDte.Dtype = SS_DT_FLOAT
 	}
 
 	return compareNumberDte(recDte, qValDte, op)
